@@ -1,0 +1,126 @@
+//! Verification hooks.
+//!
+//! This module is compiled only with `--cfg cactusref_verif`. It lets an
+//! external harness observe the critical sections of the library: every access
+//! to an allocation's counters or link table, every point at which the value or
+//! the link table is moved out of an allocation, and the phases of the cycle
+//! collector. Hooks observe; they never change what the library does.
+
+use alloc::vec::Vec;
+use core::sync::atomic::{AtomicUsize, Ordering};
+
+use crate::link::Kind;
+use crate::rc::RcBox;
+
+/// An observation emitted by the library.
+///
+/// All `usize` payloads that name an allocation are the address of its
+/// `RcBox`.
+#[derive(Debug, Clone, Copy, PartialEq, Eq)]
+pub enum Event {
+    /// The strong or weak counter of the allocation is about to be accessed.
+    TouchCounts(usize),
+    /// The link table of the allocation is about to be accessed.
+    TouchLinks(usize),
+    /// The value was moved out of the allocation.
+    MoveOutValue(usize),
+    /// The link table was moved out of the allocation.
+    MoveOutLinks(usize),
+    /// A reachability trace starts at the allocation.
+    TraceStart(usize),
+    /// The trace popped a work item naming the allocation.
+    TracePop(usize),
+    /// The trace visits the allocation (reads its link table).
+    TraceVisit(usize),
+    /// The trace finished with this many members.
+    TraceEnd(usize),
+    /// The orphan test ran; `true` if the group is orphaned.
+    Orphaned(bool),
+    /// Link busting decremented the member's strong count by the given amount.
+    Bust(usize, usize),
+    /// The member's value and link table were moved out for destruction.
+    Mark(usize),
+    /// All moved out values of a group have been destroyed.
+    Destroyed,
+    /// The member's implicit weak reference is about to be released.
+    Release(usize),
+    /// `Rc::drop` entered for a handle to the allocation.
+    DropEnter(usize),
+    /// `Rc::drop` returns for a handle to the allocation.
+    DropExit(usize),
+}
+
+static SINK: AtomicUsize = AtomicUsize::new(0);
+
+/// Install (or remove) the event sink.
+pub fn set_sink(sink: Option<fn(Event)>) {
+    let raw = match sink {
+        Some(f) => f as usize,
+        None => 0,
+    };
+    SINK.store(raw, Ordering::SeqCst);
+}
+
+#[inline]
+pub(crate) fn ev(event: Event) {
+    let raw = SINK.load(Ordering::Relaxed);
+    if raw != 0 {
+        // SAFETY: `raw` was produced from a `fn(Event)` in `set_sink`.
+        let f: fn(Event) = unsafe { core::mem::transmute::<usize, fn(Event)>(raw) };
+        f(event);
+    }
+}
+
+/// Scope guard reporting entry to and exit from `Rc::drop`.
+#[derive(Debug)]
+pub(crate) struct DropScope(usize);
+
+impl DropScope {
+    #[inline]
+    pub(crate) fn enter(rcbox: usize) -> Self {
+        ev(Event::DropEnter(rcbox));
+        Self(rcbox)
+    }
+}
+
+impl Drop for DropScope {
+    #[inline]
+    fn drop(&mut self) {
+        ev(Event::DropExit(self.0));
+    }
+}
+
+/// Read-only snapshot of the link table stored in the `RcBox` at `rcbox`.
+///
+/// Each entry is `(kind, address, count)` with kind `0` = forward, `1` =
+/// backward, `2` = loopback. Returns `None` if the table is currently mutably
+/// borrowed.
+///
+/// # Safety
+///
+/// `rcbox` must be the address of an allocated `RcBox<T>` whose link table has
+/// not been moved out.
+#[must_use]
+pub unsafe fn links_snapshot<T>(rcbox: usize) -> Option<Vec<(u8, usize, usize)>> {
+    let rcbox = rcbox as *const RcBox<T>;
+    let links = &(*rcbox).links;
+    let cell = &*(links as *const core::mem::MaybeUninit<_>)
+        .cast::<core::cell::RefCell<crate::link::Links<T>>>();
+    let links = cell.try_borrow().ok()?;
+    let mut out = Vec::new();
+    for (link, &count) in links.iter() {
+        let kind = match link.kind() {
+            Kind::Forward => 0,
+            Kind::Backward => 1,
+            Kind::Loopback => 2,
+        };
+        out.push((kind, link.as_ptr() as usize, count));
+    }
+    Some(out)
+}
+
+/// The address of the `RcBox` behind a strong handle.
+#[must_use]
+pub fn rcbox_addr<T>(this: &crate::Rc<T>) -> usize {
+    this.ptr.as_ptr() as usize
+}
